@@ -42,6 +42,9 @@ class Ctx(object):
         self.spaces = {}                            # local name -> canonical space expression
         self.sdefs = {}                             # scalar local -> defining expression (inlined)
         self.loop_scalars = set(cfg.get('loop_scalars', ()))   # scalars recomputed in every iteration (parameters)
+        self.oplist_alias = {}                      # proxs -> 'g[#].convex_conj.proximal(...)' (from the preamble)
+        self.keysets = set()                        # unique_ranges
+        self.options = set(cfg.get('options', ()))  # non-numeric option names (callback_loop)
         self.version = {}                           # loop scalar -> number of updates so far in the loop body
         self.normdefs = {}                          # scalar local d -> vector name v  for  d = -v.norm() ** 2
         self.ranges = {}                            # rng -> 'range(length)'
@@ -124,6 +127,9 @@ def op_symbol(ctx, f):
         if f.id in ctx.ops:
             return f.id
         return None
+    if isinstance(f, ast.Subscript) and isinstance(f.value, ast.Name) and f.value.id in ctx.oplist_alias \
+            and is_idx(ctx, f.slice):
+        return ctx.oplist_alias[f.value.id].replace('[#]', '[%s]' % ctx.idx)
     if isinstance(f, ast.Subscript) and isinstance(f.value, ast.Name) and f.value.id in ctx.oplists \
             and is_idx(ctx, f.slice):
         return '%s[%s]' % (f.value.id, ctx.idx)
@@ -149,6 +155,10 @@ def space_expr(ctx, e):
     if isinstance(e, ast.Subscript) and isinstance(e.value, ast.Name) and e.value.id in ctx.splists \
             and is_idx(ctx, e.slice):
         return '%s[%s]' % (e.value.id, ctx.idx)
+    if isinstance(e, ast.Attribute) and e.attr == 'domain' and isinstance(e.value, ast.Subscript) \
+            and isinstance(e.value.value, ast.Name) and e.value.value.id in ctx.oplists \
+            and isinstance(e.value.slice, ast.Constant) and e.value.slice.value == 0:
+        return '%s[0].domain' % e.value.value.id
     if isinstance(e, ast.Attribute) and e.attr in ('domain', 'range'):
         b = op_symbol(ctx, e.value)
         if b is not None:
@@ -198,11 +208,19 @@ def vx(ctx, e, emit):
             return '(VName %s)' % cstr(vname(ctx, f.value))
         if isinstance(f, ast.Attribute) and f.attr == 'copy' and not e.args and vname(ctx, f.value) is not None:
             return '(VName %s)' % cstr(vname(ctx, f.value))       # the VALUE of x; Bind makes the new object
-        if isinstance(f, ast.Attribute) and f.attr == 'zero' and not e.args and not e.keywords:
+        if isinstance(f, ast.Attribute) and f.attr in ('zero', 'one') and not e.args and not e.keywords:
             sp = space_expr(ctx, f.value)
             if sp is None:
                 ctx.err(e, 'unknown space')
+            if f.attr == 'one':
+                return '(VApp "ones_like" (VZero %s))' % cstr(sp)
             return '(VZero %s)' % cstr(sp)
+        if ast.unparse(f) == 'np.maximum' and len(e.args) == 2 and not e.keywords and is_scalar(ctx, e.args[1]):
+            return '(VMaxc %s %s)' % (sx(ctx, e.args[1]), vx(ctx, e.args[0], emit))
+        # space.element(v): a new element with the value of v
+        if isinstance(f, ast.Attribute) and f.attr == 'element' and len(e.args) == 1 and not e.keywords \
+                and space_expr(ctx, f.value) is not None:
+            return vx(ctx, e.args[0], emit)
         if e.keywords:
             ctx.err(e, 'keyword argument in a value position')
         # op.derivative(p).adjoint(a)
@@ -710,3 +728,223 @@ def translate(repo=None):
 
 if __name__ == '__main__':
     print(translate())
+
+
+# ====================================================================== list solvers, full translation
+# Preamble AND main loop of the solvers over lists of operators in the language of coq/C11/SyntaxL.v
+# (-> coq/Gen/SolversL.v).  The statement translator above is reused; its output is rewritten into the
+# L dialect (structured references instead of name strings).
+import re
+
+IDX = 'j'       # the index variable of comprehensions
+
+
+class _Subst(ast.NodeTransformer):
+    def __init__(self, mapping):
+        self.mapping = mapping
+
+    def visit_Name(self, node):
+        if node.id in self.mapping:
+            return ast.parse(self.mapping[node.id], mode='eval').body
+        return node
+
+
+def _ref(ctx, name):
+    """name string of the V dialect -> vref term"""
+    m = re.match(r'^(\w+)\[(\w+)\]$', name)
+    if m:
+        return '(RIdx %s)' % cstr(m.group(1))
+    m = re.match(r'^(\w+)\[(\w+)\[(\w+)\]\.range\]$', name)
+    if m:
+        return '(RKey %s %s)' % (cstr(m.group(1)), cstr(m.group(2)))
+    if re.match(r'^\w+$', name):
+        return '(RVar %s)' % cstr(name)
+    raise C.TranslateError('%s: name %r has no structured form' % (ctx.name, name))
+
+
+def to_L(ctx, t):
+    """rewrite one statement of the V dialect into the L dialect"""
+    t = re.sub(r'\(VName "([^"]*)"\)', lambda m: '(LName %s)' % _ref(ctx, m.group(1)), t)
+    for k in ('VApp2', 'VApp', 'VAdd', 'VSub', 'VMul', 'VDiv', 'VMaxc', 'VScal', 'VLin', 'VZero', 'VJunk'):
+        t = t.replace('(%s ' % k, '(L%s ' % k[1:])
+    m = re.match(r'^\(Write "([^"]*)" (.*)\)$', t, re.S)
+    if m:
+        return '(LWrite %s %s)' % (_ref(ctx, m.group(1)), m.group(2))
+    m = re.match(r'^\(Callback "([^"]*)"\)$', t)
+    if m:
+        return '(LCallback %s)' % _ref(ctx, m.group(1))
+    m = re.match(r'^\(Alias "([^"]*)" "([^"]*)"\)$', t)
+    if m:
+        if '[' in m.group(1):        # l[idx] = other : rebinding a list slot
+            return '(LSetSlot %s (LName %s))' % (cstr(m.group(1).split('[')[0]), _ref(ctx, m.group(2)))
+        return '(LAlias %s %s)' % (cstr(m.group(1)), _ref(ctx, m.group(2)))
+    m = re.match(r'^\(Bind "([^"]*)" (.*)\)$', t, re.S)
+    if m:
+        if '[' in m.group(1):
+            return '(LSetSlot %s %s)' % (cstr(m.group(1).split('[')[0]), m.group(2))
+        return '(LBind %s %s)' % (cstr(m.group(1)), m.group(2))
+    raise C.TranslateError('%s: statement outside the list dialect: %s' % (ctx.name, t[:100]))
+
+
+def _comp_mapping(ctx, gens, node):
+    """loop variables of a comprehension -> indexed expressions (strings)"""
+    if len(gens) != 1 or gens[0].ifs or gens[0].is_async:
+        ctx.err(node, 'comprehension shape')
+    g = gens[0]
+    it, tg = g.iter, g.target
+    lists = ctx.oplists | ctx.vlists | ctx.slists | ctx.splists
+    if isinstance(it, ast.Name) and it.id in lists | ctx.keysets and isinstance(tg, ast.Name):
+        return {tg.id: '%s[%s]' % (it.id, IDX)} if it.id in lists else {tg.id: '#key'}
+    if isinstance(it, ast.Call) and isinstance(it.func, ast.Name) and it.func.id == 'zip' \
+            and isinstance(tg, ast.Tuple) and len(tg.elts) == len(it.args) \
+            and all(isinstance(a, ast.Name) and a.id in lists for a in it.args) \
+            and all(isinstance(t, ast.Name) for t in tg.elts):
+        return {t.id: '%s[%s]' % (a.id, IDX) for t, a in zip(tg.elts, it.args)}
+    if isinstance(tg, ast.Name) and is_index_range(ctx, it) and not isinstance(it, ast.Name):
+        return {tg.id: IDX}
+    ctx.err(node, 'comprehension generator')
+
+
+def pre_stmt(ctx, s, out):
+    """one preamble statement of a list solver"""
+    if isinstance(s, ast.Expr) and isinstance(s.value, ast.Constant) and isinstance(s.value.value, str):
+        return
+    if isinstance(s, ast.If):
+        test = ast.unparse(s.test)
+        if test in ctx.flags:
+            for t in (s.body if ctx.flags[test] else s.orelse):
+                pre_stmt(ctx, t, out)
+            return
+        if is_validation_if(s):
+            return
+        ctx.err(s, 'preamble if-test is neither input validation nor a configured flag')
+    if isinstance(s, ast.Assign) and len(s.targets) == 1:
+        t, v = s.targets[0], s.value
+        tn = t.id if isinstance(t, ast.Name) else None
+        # n = len(ops)
+        if tn in ('length', 'n_ops') and isinstance(v, ast.Call) and ast.unparse(v.func) == 'len' \
+                and len(v.args) == 1 and isinstance(v.args[0], ast.Name) and v.args[0].id in ctx.oplists:
+            return
+        # option normalisation: callback_loop, callback_loop_in = str(callback_loop).lower(), callback_loop
+        if isinstance(t, ast.Tuple) and all(isinstance(e, ast.Name) and e.id in ctx.options for e in t.elts):
+            return
+        # omega = normalized_scalar_param_list(omega, len(ops), param_conv=float)
+        if tn in ctx.slists and isinstance(v, ast.Call) and ast.unparse(v.func) == 'normalized_scalar_param_list' \
+                and isinstance(v.args[0], ast.Name) and v.args[0].id == tn:
+            return
+        # unique_ranges = set(ranges)
+        if tn is not None and isinstance(v, ast.Call) and ast.unparse(v.func) == 'set' and len(v.args) == 1 \
+                and isinstance(v.args[0], ast.Name) and v.args[0].id in ctx.splists:
+            ctx.keysets.add(tn)
+            return
+        if tn is not None and isinstance(v, ast.ListComp):
+            mp = _comp_mapping(ctx, v.generators, s)
+            elt = _Subst(mp).visit(ast.parse(ast.unparse(v.elt), mode='eval').body)
+            ctx.idx = IDX
+            try:
+                # ranges = [opi.range for opi in L]
+                sp = space_expr(ctx, elt)
+                if sp is not None:
+                    ctx.splists.add(tn)
+                    return
+                sym = op_symbol(ctx, elt)
+                if sym is not None:                 # proxs = [func.convex_conj.proximal(...) for ...]
+                    ctx.oplist_alias[tn] = sym.replace('[%s]' % IDX, '[#]')
+                    return
+                ref = vname(ctx, elt)
+                if ref is not None:                 # a list of references to existing objects
+                    ctx.vlists.add(tn)
+                    out.append('(PListRef %s %s)' % (cstr(tn), _ref(ctx, ref)))
+                    return
+                if isinstance(elt, ast.Call) and isinstance(elt.func, ast.Attribute) and elt.func.attr == 'element' \
+                        and not elt.args and not elt.keywords and space_expr(ctx, elt.func.value) is not None:
+                    e = '(LJunk %s)' % cstr(tn)
+                else:
+                    pend = []
+                    e = to_L_expr(ctx, vx(ctx, elt, pend.append))
+                    if pend:
+                        ctx.err(s, 'side effect inside a comprehension')
+                ctx.vlists.add(tn)
+                out.append('(PList %s %s)' % (cstr(tn), e))
+                return
+            finally:
+                ctx.idx = None
+        if tn is not None and isinstance(v, ast.DictComp):
+            mp = _comp_mapping(ctx, v.generators, s)
+            if not (isinstance(v.key, ast.Name) and mp.get(v.key.id) == '#key' and isinstance(v.value, ast.Call)
+                    and isinstance(v.value.func, ast.Attribute) and v.value.func.attr == 'element'
+                    and isinstance(v.value.func.value, ast.Name) and v.value.func.value.id == v.key.id
+                    and not v.value.args and not v.value.keywords):
+                ctx.err(s, 'dict comprehension shape')
+            ctx.dicts.add(tn)
+            out.append('(PDict %s (LJunk %s))' % (cstr(tn), cstr(tn)))
+            return
+    # everything else: the plain statement translator (validation, scalars, spaces, operator aliases, Bind ...)
+    tmp = []
+    stmt(ctx, s, tmp, 0)
+    for t in tmp:
+        out.append('(PStmt %s)' % to_L(ctx, t))
+
+
+def to_L_expr(ctx, t):
+    t = re.sub(r'\(VName "([^"]*)"\)', lambda m: '(LName %s)' % _ref(ctx, m.group(1)), t)
+    for k in ('VApp2', 'VApp', 'VAdd', 'VSub', 'VMul', 'VDiv', 'VMaxc', 'VScal', 'VLin', 'VZero', 'VJunk'):
+        t = t.replace('(%s ' % k, '(L%s ' % k[1:])
+    return t
+
+
+LCONFIG = {
+    'adupdates': dict(CONFIG['adupdates'], vlists=[], oplists=['L', 'g'], dicts=[], splists=[],
+                      options=['callback_loop', 'callback_loop_in']),
+    'adupdates_simple': dict(CONFIG['adupdates_simple'], vlists=[], oplists=['L', 'g'], splists=[]),
+    'kaczmarz': dict(CONFIG['kaczmarz'], vectors=['x'], vlists=['rhs'], dicts=[], splists=[], options=[]),
+    'osmlem': dict(CONFIG['osmlem'], vectors=['x'], vlists=['data'], scalars=['niter', 'eps'],
+                   optional=['sensitivities'],
+                   flags=dict(CONFIG['osmlem']['flags'], **{'sensitivities is None': True})),
+}
+
+
+def translate_list_solver(name, cfg, repo):
+    cfg = dict(cfg)
+    cfg.pop('pre_hash', None)
+    fn = find_fn(repo, cfg, name)
+    ctx = Ctx(name + '_l', cfg)
+    pre = []
+    loops = [s for s in fn.body if isinstance(s, ast.For)]
+    if len(loops) != 1 or fn.body[-1] is not loops[0]:
+        raise C.TranslateError('%s: expected exactly one main loop as the last statement' % name)
+    for s in fn.body[:-1]:
+        pre_stmt(ctx, s, pre)
+    stmt(ctx, loops[0], [], 0)
+    items = []
+    k = 0
+    for t in ctx.body:
+        if t.startswith('(OFor'):
+            idx, prog = ctx.inner[k]
+            k += 1
+            items.append('(IFor [\n' + ';\n'.join('      ' + to_L(ctx, u) for u in prog) + '])')
+        else:
+            items.append('(IStmt %s)' % to_L(ctx, t))
+    return ctx, pre, items
+
+
+def translate_l(repo=None):
+    repo = repo or C.REPO
+    out = ['(* GENERATED by translate/solvers.py (list solvers, preamble included) -- do not edit. *)',
+           'From Coq Require Import ZArith QArith String List.',
+           'From Verif Require Import C11.Syntax C11.SyntaxL.',
+           'Import ListNotations.',
+           'Local Open Scope string_scope.', '']
+    for name, cfg in LCONFIG.items():
+        ctx, pre, items = translate_list_solver(name, cfg, repo)
+        out.append('(* %s  (%s)' % (name, cfg['file']))
+        out.append('   operator symbols: %s' % ', '.join(sorted(ctx.symbols)))
+        out.append('   assumed: %s *)' % ', '.join('%s=%s' % kv for kv in sorted(cfg.get('flags', {}).items())))
+        out.append('Definition %s_lpre : list pstmt := [' % name)
+        out.append(';\n'.join('  ' + t for t in pre))
+        out.append('].')
+        out.append('Definition %s_lbody : list litem := [' % name)
+        out.append(';\n'.join('  ' + t for t in items))
+        out.append('].')
+        out.append('')
+    return '\n'.join(out) + '\n'
